@@ -81,7 +81,11 @@ Definition isort {A} (leb : A -> A -> bool) (l : list A) : list A := fold_right 
 Definition validateScope_fixed (pi : list (str * var)) : list perr := isort pos_leb (validateScope pi).
 
 (* ------------------------------------------------------------------ *)
-(* pkg/parser/type.go: Type, Type.Equals, combineTypes               *)
+(* pkg/parser/type.go: Type, Type.Equals, combineTypes AS IT WAS up to /repo
+   e6ebb6a.  0e214ac rewrote combineTypes (mergeFixed, accepts); since e6ebb6a
+   parseMapLiteral calls it in source order, so it is no concern of C08 any
+   more: this model is kept for the regression theorems only and is no longer
+   compared with the implementation (the current function is C04's subject). *)
 Inductive base := BNum | BStr | BBool | BAny | BNone.
 Inductive ty :=
 | TBase (b : base)                         (* NUM_TYPE … NONE_TYPE singletons *)
@@ -383,6 +387,16 @@ Definition parseMapLiteral_sub_cur (pi order : list (str * ty)) : ty :=
 Definition mapVal_Equals_cur (pi order : list (str * val)) (len2 : nat) (m2 : fmap val) : tri :=
   mapVal_Equals veq order len2 m2.         (* since /repo abeb6de (ranges over *m.Order); before: mapVal_Equals veq pi len2 m2 *)
 
+(* wrapAny over Pairs (parseMapLiteral's remaining map range and wrapAny's map
+   case): a value is either rewritten or makes wrapAny panic *)
+Definition wrap_w (ok : bool) : option bool := if ok then Some ok else None.
+Definition wrap_cur (pi order : list (str * bool)) : wrap_result bool :=
+  wrap_loop wrap_w pi fempty.              (* fixed: wrap_loop wrap_w order fempty *)
+Definition dec_wrap (x : sx) : str * bool :=
+  match x with Lst [k; v] => (sx_str_of k, sym_is v "ok") | _ => ([], true) end.
+Definition enc_wrap (r : wrap_result bool) : sx :=
+  match r with WrapOk _ => Lst [Sym (s_ "ok")] | WrapPanic k => Lst [Sym (s_ "panic"); Str k] end.
+
 Definition perm_case (x : sx) : sx :=
   match x with
   | Lst (Sym site :: args) =>
@@ -407,6 +421,9 @@ Definition perm_case (x : sx) : sx :=
         let m2 : fmap val := fun k => match find (fun e => str_eqb (fst e) k) es with Some e => Some (snd (snd e)) | None => None end in
         let order := map (fun e => (fst e, fst (snd e))) es in
         Lst (map (fun pi => enc_tri (mapVal_Equals_cur pi order (List.length es) m2)) (perms order))
+      else if str_eqb site (s_ "wrap") then
+        let order := map dec_wrap args in
+        Lst (map (fun pi => enc_wrap (wrap_cur pi order)) (perms order))
       else if str_eqb site (s_ "names") then
         Lst (map (fun pi => Lst (map Str (eventHandlerNames pi))) (perms (map (fun a => (sx_str_of a, tt)) args)))
       else Sym (s_ "unknown-site")
